@@ -1,0 +1,36 @@
+//go:build verif
+
+// Contracts for the deductive verifier in /verif (govc): trusted summaries of the x/evm keeper accessors the ante
+// handlers (app/antedl) call. Comment-only; see verif_contracts.go for the shared ghost state (trFlagNonce, trFlagPaid,
+// evmDenomOf, ...). Every `assumed` below summarises store + codec code and is listed in the evidence (trusted_base).
+package keeper
+
+//@ import sdk "github.com/cosmos/cosmos-sdk/types"
+//@ import sdkmath "cosmossdk.io/math"
+//@ import common "github.com/ethereum/go-ethereum/common"
+//@ import evmtypes "github.com/EscanBE/evermint/v12/x/evm/types"
+
+// (SetFlagSenderNonceIncreasedByAnteHandle / SetFlagSenderPaidTxFeeInAnteHandle: summaries in verif_contracts.go)
+
+// params.go GetEip155ChainId: the stored chain id (panics "chain ID not set" when it is 0: never after InitGenesis).
+//@ ghost var evmChainId map[int]int
+//@ func (k Keeper) GetEip155ChainId(ctx sdk.Context) (id evmtypes.Eip155ChainId)
+//@   assumed
+//@   modifies nothing
+//@   ensures chainIdVal(id) == evmChainId[layer(ctx)] && chainIdVal(id) > 0
+//@   panics only_if evmChainId[layer(ctx)] == 0
+
+// keeper.go GetBaseFee = feeMarketKeeper.GetBaseFee = x/feemarket GetParams(ctx).BaseFee (x/feemarket/keeper contracts)
+//@ func (k Keeper) GetBaseFee(ctx sdk.Context) (baseFee sdkmath.Int)
+//@   assumed
+//@   modifies nothing
+//@   ensures inil(baseFee) == fmBaseFeeNil[layer(ctx)] && (!inil(baseFee) ==> iv(baseFee) == fmBaseFee[layer(ctx)])
+//@   panics never
+
+// statedb.go GetCodeHash: stored code hash; EmptyCodeHash for an existing account without one; zero hash otherwise.
+//@ ghost var evmCodeHash map[int]map[bytes]common.Hash
+//@ func (k *Keeper) GetCodeHash(ctx sdk.Context, addr []byte) common.Hash
+//@   assumed
+//@   modifies nothing
+//@   ensures result == evmCodeHash[layer(ctx)][bytes(addr)]
+//@   panics never
